@@ -13,6 +13,9 @@ def protoComponent {σ : Type} (init : σ) (step : σ → Ev → σ × List Out)
       match ws with
       | ["sched", _] => (s, "ok")
       | ["sched", _, _, _] => (s, "ok")
+      -- `fini`: everything is closed, nng_fini runs, the accounting allocator reports what it
+      -- still holds.  The model's prediction is the property (C03): nothing, and no mismatched free.
+      | ["fini"] => (init, "fini live=0 bytes=0 badfree=0")
       | _ =>
         match parseEv ws with
         | some ev => let (s', o) := step s ev; (s', showOuts o)
